@@ -5,7 +5,6 @@ triggers the root cause (computed from the case spec) and the symptom the
 root cause produces (a short code the comparison routine appends to the
 failure's `klass`, or the failing clause + library frame).  Everything else
 stays a VIOLATION."""
-import datetime
 
 from . import camxspec as C
 
